@@ -9,5 +9,7 @@ CONSTANTS
   MaxLen = 2
   MaxOps = 4
   Variant = "fresh"
+  ElemOf <- Elem2
+  CacheVariant = "none"
 VIEW ViewDepth
 CHECK_DEADLOCK FALSE
